@@ -2,10 +2,12 @@ package main
 
 import (
 	"encoding/hex"
+	"fmt"
 	"math/big"
 
 	"github.com/dominant-strategies/go-quai/common"
 	"github.com/dominant-strategies/go-quai/core/types"
+	"github.com/dominant-strategies/go-quai/crypto"
 	"github.com/dominant-strategies/go-quai/params"
 	"github.com/dominant-strategies/go-quai/rlp"
 
@@ -59,6 +61,50 @@ func (p *prog) call(to, value, gas *big.Int) *prog {
 	return p.op("call")
 }
 func (p *prog) revert() *prog { return p.pushU(0).pushU(0).op("revert") }
+
+// ret returns size bytes of memory that nothing has written to (zeros): in a constructor, the code to deposit
+func (p *prog) ret(size uint64) *prog { return p.pushU(size).pushU(4096).op("return") }
+
+// callk: kind is call / callcode (gas, addr, value, in, out) or delegatecall / staticcall (no value)
+func (p *prog) callk(kind string, to, value, gas *big.Int) *prog {
+	p.pushU(0).pushU(0).pushU(0).pushU(0)
+	if kind == "call" || kind == "callcode" {
+		p.push(value)
+	}
+	p.push(to).push(gas)
+	return p.op(kind)
+}
+
+// create stores the init code at memory offset base and runs CREATE (salt == nil) or CREATE2 on it
+func (p *prog) create(init *prog, value, salt *big.Int, base uint64) *prog {
+	bc, _ := compile(init.ins)
+	p.storeBlob(base, bc)
+	if salt != nil {
+		p.push(salt)
+	}
+	p.pushU(uint64(len(bc))).pushU(base).push(value)
+	name := "create"
+	if salt != nil {
+		name = "create2"
+	}
+	p.ins = append(p.ins, Instr{Op: name, Init: init.ins})
+	return p
+}
+
+// a salt for which CREATE2 by self on this init code lands on an in-zone Quai address (what a deployer has to find)
+func findSalt(self string, loc common.Location, init *prog, from int) *big.Int {
+	bc, _ := compile(init.ins)
+	h := crypto.Keccak256(bc)
+	selfA := common.BytesToAddress(addrBytes(self), loc)
+	for i := from; i < from+200000; i++ {
+		var s32 [32]byte
+		big.NewInt(int64(i)).FillBytes(s32[:])
+		if _, err := crypto.CreateAddress2(selfA, s32, h, loc).InternalAndQuaiAddress(); err == nil {
+			return big.NewInt(int64(i))
+		}
+	}
+	return big.NewInt(int64(from))
+}
 
 // ---------- addresses ----------
 
@@ -350,6 +396,172 @@ func corpus() []*Case {
 				s.setCode(s.A, new(prog).etx(s.defaultEtx()).op("pop").call(addrWord(s.A), big.NewInt(0), max256).op("stop"))
 				s.c.Gas = 1500000
 			})
+			// --- frames of every kind: a send inside the frame, the frame then ends in every way, the caller goes on
+			if ptn == post { // frame semantics do not depend on the fork regime of the send opcodes
+				kinds := []string{"call", "callcode", "delegatecall", "staticcall"}
+				ends := []struct {
+					name string
+					f    func(p *prog) *prog
+				}{
+					{"STOP", func(p *prog) *prog { return p.op("stop") }},
+					{"REVERT", func(p *prog) *prog { return p.revert() }},
+					{"invalid opcode", func(p *prog) *prog { return p.op("invalid") }},
+					{"stack underflow", func(p *prog) *prog { return p.op("pop").op("pop").op("stop") }},
+					{"RETURN of 64 bytes", func(p *prog) *prog { return p.ret(64) }},
+				}
+				for _, kind := range kinds {
+					kind := kind
+					for _, end := range ends {
+						end := end
+						add(kind+" frame: ETX then "+end.name+"; the caller swallows the result and sends again", func(s *scen) {
+							s.setCode(s.B, end.f(new(prog).etx(s.defaultEtx()).op("pop")))
+							s.setCode(s.A, new(prog).callk(kind, addrWord(s.B), big.NewInt(0), big.NewInt(500000)).op("pop").etx(s.defaultEtx()).op("pop").op("stop"))
+						})
+					}
+					add(kind+" frame: CONVERT then REVERT; the caller converts again", func(s *scen) {
+						s.setCode(s.B, new(prog).convert(addrWord(s.inQi), minC, big.NewInt(21000)).op("pop").revert())
+						s.setCode(s.A, new(prog).etx(s.defaultEtx()).op("pop").callk(kind, addrWord(s.B), big.NewInt(0), big.NewInt(500000)).op("pop").
+							convert(addrWord(s.inQi), minC, big.NewInt(22000)).op("pop").op("stop"))
+					})
+					add(kind+" frame: two ETXs, out of gas in the second; the caller sends again", func(s *scen) {
+						s.setCode(s.B, new(prog).etx(s.defaultEtx()).etx(s.defaultEtx()).op("stop"))
+						s.setCode(s.A, new(prog).callk(kind, addrWord(s.B), big.NewInt(0), big.NewInt(30000)).op("pop").etx(s.defaultEtx()).op("stop"))
+					})
+					add(kind+" frame that sends, nested in a CALL frame that reverts after it; outer caller sends", func(s *scen) {
+						s.setCode(s.C, new(prog).etx(s.defaultEtx()).op("pop").op("stop"))
+						s.setCode(s.B, new(prog).callk(kind, addrWord(s.C), big.NewInt(0), big.NewInt(300000)).op("pop").etx(s.defaultEtx()).op("pop").revert())
+						s.setCode(s.A, new(prog).callk("call", addrWord(s.B), big.NewInt(0), big.NewInt(900000)).op("pop").etx(s.defaultEtx()).op("pop").op("stop"))
+					})
+					add(kind+" frame that reverts, nested in a delegatecall frame that succeeds", func(s *scen) {
+						s.setCode(s.C, new(prog).etx(s.defaultEtx()).op("pop").convert(addrWord(s.inQi), minC, big.NewInt(21000)).op("pop").revert())
+						s.setCode(s.B, new(prog).etx(s.defaultEtx()).op("pop").callk(kind, addrWord(s.C), big.NewInt(0), big.NewInt(300000)).op("pop").etx(s.defaultEtx()).op("pop").op("stop"))
+						s.setCode(s.A, new(prog).callk("delegatecall", addrWord(s.B), big.NewInt(0), big.NewInt(900000)).op("pop").etx(s.defaultEtx()).op("pop").op("stop"))
+					})
+					add(kind+" to a foreign Quai address / to a Qi address / to an account without code", func(s *scen) {
+						s.setCode(s.B, new(prog).etx(s.defaultEtx()).op("pop").callk(kind, addrWord(s.fQuai[0]), big.NewInt(0), big.NewInt(100000)).op("pop").op("stop"))
+						s.setCode(s.A, new(prog).callk(kind, addrWord(s.inQi), big.NewInt(0), big.NewInt(100000)).op("pop").
+							callk(kind, addrWord(s.funded), big.NewInt(0), big.NewInt(100000)).op("pop").
+							callk("call", addrWord(s.B), big.NewInt(0), big.NewInt(400000)).op("pop").etx(s.defaultEtx()).op("stop"))
+					})
+					add(kind+" with the cache at 65535 entries: the frame takes the last index and reverts, the caller takes it again", func(s *scen) {
+						s.c.Prefill = 65535
+						s.setCode(s.B, new(prog).etx(s.defaultEtx()).op("pop").revert())
+						s.setCode(s.A, new(prog).callk(kind, addrWord(s.B), big.NewInt(0), big.NewInt(500000)).op("pop").etx(s.defaultEtx()).op("pop").etx(s.defaultEtx()).op("pop").op("stop"))
+					})
+				}
+				add("callcode with a value above the balance / with a value it can afford", func(s *scen) {
+					s.setCode(s.B, new(prog).etx(s.defaultEtx()).op("pop").op("stop"))
+					s.setCode(s.A, new(prog).callk("callcode", addrWord(s.B), new(big.Int).Add(e21, big.NewInt(1)), big.NewInt(200000)).op("pop").
+						callk("callcode", addrWord(s.B), big.NewInt(5), big.NewInt(200000)).op("pop").op("stop"))
+				})
+				add("staticcall frame: value-carrying CALL and value-less CALL inside", func(s *scen) {
+					s.setCode(s.C, new(prog).etx(s.defaultEtx()).op("pop").op("stop"))
+					s.setCode(s.B, new(prog).callk("call", addrWord(s.C), big.NewInt(0), big.NewInt(100000)).op("pop").callk("call", addrWord(s.C), big.NewInt(1), big.NewInt(100000)).op("pop").op("stop"))
+					s.setCode(s.A, new(prog).callk("staticcall", addrWord(s.B), big.NewInt(0), big.NewInt(600000)).op("pop").etx(s.defaultEtx()).op("stop"))
+				})
+				add("delegatecall chain A -> B -> C: C's send is A's send; B reverts afterwards", func(s *scen) {
+					s.setCode(s.C, new(prog).etx(s.defaultEtx()).op("pop").op("stop"))
+					s.setCode(s.B, new(prog).callk("delegatecall", addrWord(s.C), big.NewInt(0), big.NewInt(300000)).op("pop").revert())
+					s.setCode(s.A, new(prog).callk("delegatecall", addrWord(s.B), big.NewInt(0), big.NewInt(600000)).op("pop").etx(s.defaultEtx()).op("pop").op("stop"))
+					s.setBal(s.B, big.NewInt(0)).setBal(s.C, big.NewInt(0))
+				})
+				add("F2 inside a delegatecall frame that succeeds: the loss is the caller's", func(s *scen) {
+					a := s.defaultEtx()
+					a.blob, a.alSize = []byte{0x00}, big.NewInt(1)
+					s.setCode(s.B, new(prog).etx(a).op("stop"))
+					s.setCode(s.A, new(prog).callk("delegatecall", addrWord(s.B), big.NewInt(0), big.NewInt(500000)).op("stop"))
+				})
+				// constructors
+				for _, two := range []bool{false, true} {
+					two := two
+					name := "CREATE"
+					if two {
+						name = "CREATE2"
+					}
+					mk := func(s *scen, init *prog, value int64) *prog {
+						var salt *big.Int
+						if two {
+							salt = findSalt(s.A, s.loc, init, 0)
+						}
+						return new(prog).create(init, big.NewInt(value), salt, 0)
+					}
+					for _, end := range ends {
+						end := end
+						add(name+": the constructor sends out of its endowment then "+end.name+"; the creator sends afterwards", func(s *scen) {
+							init := end.f(new(prog).etx(s.defaultEtx()).op("pop"))
+							s.setCode(s.A, mk(s, init, 1000000).op("pop").etx(s.defaultEtx()).op("pop").op("stop"))
+						})
+					}
+					for _, size := range []uint64{20000, uint64(params.GetMaxCodeSize(harnessBlockNumber)), uint64(params.GetMaxCodeSize(harnessBlockNumber)) + 1} {
+						size := size
+						add(name+fmt.Sprintf(": the constructor sends then RETURNs %d bytes of code; enough gas for the deposit / not enough (finding: fails without being reverted)", size), func(s *scen) {
+							init := new(prog).etx(s.defaultEtx()).op("pop").ret(size)
+							for _, who := range []string{s.B, s.C} {
+								var salt *big.Int
+								if two {
+									salt = findSalt(who, s.loc, init, 0)
+								}
+								s.setCode(who, new(prog).create(init, big.NewInt(1000000), salt, 0).op("pop").etx(s.defaultEtx()).op("pop").op("stop"))
+							}
+							s.setCode(s.A, new(prog).callk("call", addrWord(s.B), big.NewInt(0), big.NewInt(9500000)).op("pop").
+								callk("call", addrWord(s.C), big.NewInt(0), big.NewInt(2000000)).op("pop").op("stop"))
+							s.c.Gas = 14000000
+						})
+					}
+					add(name+": the constructor converts then REVERTs", func(s *scen) {
+						init := new(prog).convert(addrWord(s.inQi), minC, big.NewInt(21000)).op("pop").revert()
+						var salt *big.Int
+						if two {
+							salt = findSalt(s.A, s.loc, init, 0)
+						}
+						s.setCode(s.A, new(prog).create(init, new(big.Int).Mul(minC, big.NewInt(2)), salt, 0).op("pop").etx(s.defaultEtx()).op("pop").op("stop"))
+					})
+					add(name+": the constructor without endowment cannot pay its send; empty init code; endowment above the balance", func(s *scen) {
+						init := new(prog).etx(s.defaultEtx()).op("pop").op("stop")
+						p := mk(s, init, 0).op("pop")
+						var salt *big.Int
+						if two {
+							salt = big.NewInt(1)
+						}
+						p.create(new(prog), big.NewInt(77), salt, 0).op("pop")
+						p.create(init, new(big.Int).Add(e21, big.NewInt(1)), salt, 0).op("pop")
+						s.setCode(s.A, p.etx(s.defaultEtx()).op("stop"))
+					})
+					add(name+" inside a frame that reverts after a successful constructor send", func(s *scen) {
+						init := new(prog).etx(s.defaultEtx()).op("pop").op("stop")
+						var salt *big.Int
+						if two {
+							salt = findSalt(s.B, s.loc, init, 0)
+						}
+						s.setCode(s.B, new(prog).create(init, big.NewInt(500000), salt, 0).op("pop").revert())
+						s.setCode(s.A, new(prog).callk("call", addrWord(s.B), big.NewInt(0), big.NewInt(3000000)).op("pop").etx(s.defaultEtx()).op("pop").op("stop"))
+					})
+					add(name+": the constructor delegatecalls code that sends and reverts, then sends itself", func(s *scen) {
+						s.setCode(s.B, new(prog).etx(s.defaultEtx()).op("pop").revert())
+						init := new(prog).callk("delegatecall", addrWord(s.B), big.NewInt(0), big.NewInt(200000)).op("pop").etx(s.defaultEtx()).op("pop").op("stop")
+						s.setCode(s.A, mk(s, init, 2000000).op("pop").etx(s.defaultEtx()).op("pop").op("stop"))
+					})
+					add(name+" with too little gas for the account creation", func(s *scen) {
+						init := new(prog).etx(s.defaultEtx()).op("pop").op("stop")
+						var salt *big.Int
+						if two {
+							salt = findSalt(s.B, s.loc, init, 0)
+						}
+						s.setCode(s.B, new(prog).create(init, big.NewInt(500000), salt, 0).op("pop").etx(s.defaultEtx()).op("stop"))
+						s.setCode(s.A, new(prog).callk("call", addrWord(s.B), big.NewInt(0), big.NewInt(120000)).op("pop").op("stop"))
+					})
+				}
+				add("CREATE2 with a salt that lands outside the zone", func(s *scen) {
+					init := new(prog).etx(s.defaultEtx()).op("pop").op("stop")
+					salt := findSalt(s.A, s.loc, init, 0)
+					s.setCode(s.A, new(prog).create(init, big.NewInt(500000), new(big.Int).Add(salt, big.NewInt(1)), 0).op("pop").etx(s.defaultEtx()).op("stop"))
+				})
+				add("CREATE inside a staticcall frame (write protection)", func(s *scen) {
+					init := new(prog).etx(s.defaultEtx()).op("pop").op("stop")
+					s.setCode(s.B, new(prog).create(init, big.NewInt(0), nil, 0).op("pop").op("stop"))
+					s.setCode(s.A, new(prog).callk("staticcall", addrWord(s.B), big.NewInt(0), big.NewInt(600000)).op("pop").etx(s.defaultEtx()).op("stop"))
+				})
+			}
 			// --- top-level CreateETX
 			add("top-level call to a foreign eligible address", func(s *scen) {
 				s.c.To, s.c.Value, s.c.Gas = s.fQuai[1], "1000", 50000
@@ -578,13 +790,51 @@ func (s *scen) genEtx(r *hlib.Rng, bal *big.Int) etxArgs {
 	return a
 }
 
+func genKind(r *hlib.Rng) string {
+	return []string{"call", "callcode", "delegatecall", "staticcall"}[r.Pick(38, 18, 29, 15)]
+}
+
+// init code of a generated constructor: one or two sends (or a frame running C's code), then any ending
+func (s *scen) genInit(r *hlib.Rng, bal *big.Int) *prog {
+	p := new(prog)
+	n := 1 + r.Intn(2)
+	for i := 0; i < n; i++ {
+		switch r.Pick(60, 20, 20) {
+		case 0:
+			a := s.genEtx(r, bal)
+			a.blob, a.alSize, a.base, a.inOff, a.inSize = nil, big.NewInt(0), 0, 0, 0
+			p.etx(a)
+		case 1:
+			p.convert(addrWord(s.inQi), new(big.Int).Mul(params.MinQuaiConversionAmount, big.NewInt(int64(1+r.Intn(3)))), big.NewInt(int64(21000+r.Intn(1000))))
+		default:
+			p.callk(genKind(r), addrWord(s.C), big.NewInt(0), big.NewInt(int64(40000+r.Intn(200000))))
+		}
+		if r.Chance(70) {
+			p.op("pop")
+		}
+	}
+	switch r.Pick(33, 30, 10, 7, 20) {
+	case 0:
+		p.op("stop")
+	case 1:
+		p.revert()
+	case 2:
+		p.op("invalid")
+	case 3:
+	default:
+		max := uint64(params.GetMaxCodeSize(harnessBlockNumber))
+		p.ret([]uint64{0, 1, 100, 2000, 20000, 30000, max, max + 1, 50000}[r.Intn(9)])
+	}
+	return p
+}
+
 func (s *scen) genCode(r *hlib.Rng, level int, bal *big.Int) *prog {
 	p := new(prog)
 	contracts := []string{s.A, s.B, s.C}
 	n := 1 + r.Intn(4)
 	for i := 0; i < n; i++ {
 		popAfter := r.Chance(60)
-		switch r.Pick(6, 38, 20, 22, 4, 4, 3, 3) {
+		switch r.Pick(6, 32, 19, 23, 4, 4, 3, 3, 6) {
 		case 0:
 			p.pushU(uint64(r.Intn(1000)))
 			continue
@@ -617,35 +867,49 @@ func (s *scen) genCode(r *hlib.Rng, level int, bal *big.Int) *prog {
 				v = genValue(r, bal)
 			}
 			g := pickBig(r, big.NewInt(0), big.NewInt(30000), big.NewInt(int64(40000+r.Intn(200000))), big.NewInt(int64(40000+r.Intn(200000))), big.NewInt(3000000), big.NewInt(3000000), two64, max256, max256, new(big.Int).Sub(two64, big.NewInt(1)))
-			p.call(addrWord(contracts[level+1+r.Intn(2-level)]), v, g)
+			p.callk(genKind(r), addrWord(contracts[level+1+r.Intn(2-level)]), v, g)
 		case 4:
 			d := s.genDest(r)
 			if new(big.Int).And(d, new(big.Int).Sub(pow2(160), big.NewInt(1))).Cmp(addrWord(s.A)) == 0 {
 				d = addrWord(s.fQuai[0]) // no recursion in random programs (one corpus case covers it)
 			}
-			p.call(d, big.NewInt(int64(r.Intn(3))), big.NewInt(100000))
+			p.callk(genKind(r), d, big.NewInt(int64(r.Intn(3))), big.NewInt(100000))
 		case 5:
 			v := big.NewInt(int64(r.Intn(500)))
-			p.call(addrWord([]string{s.funded, s.unfunded}[r.Intn(2)]), v, big.NewInt(int64(r.Intn(40000))))
+			p.callk([]string{"call", "call", "callcode"}[r.Intn(3)], addrWord([]string{s.funded, s.unfunded}[r.Intn(2)]), v, big.NewInt(int64(r.Intn(40000))))
 		case 6:
 			p.op("pop")
 			continue
-		default:
+		case 7:
 			p.pushU(uint64(r.Intn(64))).pushU(uint64(r.Intn(2000))).op("mstore")
 			continue
+		default:
+			// a constructor (CREATE / CREATE2) that sends
+			endow := pickBig(r, big.NewInt(0), big.NewInt(1000000), big.NewInt(1000000), new(big.Int).Mul(params.MinQuaiConversionAmount, big.NewInt(5)), new(big.Int).Add(bal, big.NewInt(1)))
+			init := s.genInit(r, endow)
+			var salt *big.Int
+			if r.Chance(45) {
+				salt = findSalt(contracts[level], s.loc, init, r.Intn(1000))
+				if r.Chance(10) {
+					salt = new(big.Int).Add(salt, big.NewInt(1)) // most likely outside the zone
+				}
+			}
+			p.create(init, endow, salt, uint64(32*r.Intn(3)))
 		}
 		if popAfter {
 			p.op("pop")
 		}
 	}
-	switch r.Pick(68, 14, 10, 8) {
+	switch r.Pick(62, 14, 10, 8, 6) {
 	case 0:
 		p.op("stop")
 	case 1:
 		p.revert()
 	case 2:
 		p.op("invalid")
+	case 3:
 	default:
+		p.ret(uint64([]int{0, 32, 1000}[r.Intn(3)]))
 	}
 	return p
 }
